@@ -296,6 +296,43 @@ int upipe_h26xf_convert_frame(struct uref *uref,
     uint64_t nal_offset = 0;
     uint64_t nal_size = 0;
     int64_t nal_offset_correction = 0;
+
+    /* refuse NAL units that do not fit the output length field before
+     * modifying anything */
+    uint64_t max_size = UINT64_MAX;
+    if (encaps_output == UREF_H26X_ENCAPS_LENGTH1)
+        max_size = UINT8_MAX;
+    else if (encaps_output == UREF_H26X_ENCAPS_LENGTH2)
+        max_size = UINT16_MAX;
+    while (max_size != UINT64_MAX &&
+           ubase_check(uref_h26x_iterate_nal(uref, &nal_units,
+                                             &nal_offset, &nal_size, 0))) {
+        uint64_t encaps_size = 0;
+        switch (encaps_input) {
+            case UREF_H26X_ENCAPS_NALU:
+                break;
+            case UREF_H26X_ENCAPS_ANNEXB: {
+                uint8_t startcode[3];
+                UBASE_RETURN(uref_block_extract(uref, nal_offset, 3,
+                                                startcode))
+                encaps_size = startcode[2] == 1 ? 3 : 4;
+                break;
+            }
+            case UREF_H26X_ENCAPS_LENGTH1:
+                encaps_size = 1;
+                break;
+            case UREF_H26X_ENCAPS_LENGTH2:
+                encaps_size = 2;
+                break;
+            default:
+                encaps_size = 4;
+                break;
+        }
+        if (nal_size < encaps_size || nal_size - encaps_size > max_size)
+            return UBASE_ERR_INVALID;
+    }
+    nal_units = 0;
+
     while (ubase_check(uref_h26x_iterate_nal(uref, &nal_units,
                                              &nal_offset, &nal_size,
                                              nal_offset_correction))) {
